@@ -11,7 +11,10 @@
 
 use std::{
     fmt,
-    sync::{Arc, RwLock},
+    sync::{
+        atomic::{AtomicBool, Ordering},
+        Arc, RwLock,
+    },
     time::Duration,
 };
 
@@ -46,13 +49,19 @@ pub trait Hooks: Send + Sync + 'static {
 }
 
 static HOOKS: RwLock<Option<Arc<dyn Hooks>>> = RwLock::new(None);
+static ACTIVE: AtomicBool = AtomicBool::new(false);
 
 /// Installs (or removes) the process-wide hooks object.
 pub fn set_hooks(hooks: Option<Arc<dyn Hooks>>) {
-    *HOOKS.write().unwrap_or_else(|e| e.into_inner()) = hooks;
+    let mut slot = HOOKS.write().unwrap_or_else(|e| e.into_inner());
+    ACTIVE.store(hooks.is_some(), Ordering::SeqCst);
+    *slot = hooks;
 }
 
 fn hooks() -> Option<Arc<dyn Hooks>> {
+    if !ACTIVE.load(Ordering::SeqCst) {
+        return None;
+    }
     HOOKS.read().unwrap_or_else(|e| e.into_inner()).clone()
 }
 
